@@ -13,10 +13,10 @@ import (
 
 func init() {
 	register(&Prop{
-		ID: "C03",
-		Decided: "(1) every implementation of functions.AggregatorFunction (and the legacy wrappers): New() returns a new object that shares no reference-typed accumulator state with the prototype, and Add writes only its receiver's fields (no package state); (2) NULL skipping at the single choke point: in GroupAggregator.Add every groupAgg.Add(v) is unreachable when v is NULL unless the aggregate is first_value/last_value (the exemption table is exactly the property's), count(*) adds the constant 1; (3) GroupAggregator.Reset re-initialises every field Add writes, and in processWindowBatch Reset follows the Add loop on every path on which GetResults' error is nil, every in-module GetResults returning a constant nil error; (4) each of the aggregate names the property lists is registered with a type implementing AggregatorFunction.",
+		ID:         "C03",
+		Decided:    "(1) every implementation of functions.AggregatorFunction (and the legacy wrappers): New() returns a new object that shares no reference-typed accumulator state with the prototype, and Add writes only its receiver's fields (no package state); (2) NULL skipping at the single choke point: in GroupAggregator.Add every groupAgg.Add(v) is unreachable when v is NULL unless the aggregate is first_value/last_value (the exemption table is exactly the property's), count(*) adds the constant 1; (3) GroupAggregator.Reset re-initialises every field Add writes, and in processWindowBatch Reset follows the Add loop on every path on which GetResults' error is nil, every in-module GetResults returning a constant nil error; (4) each of the aggregate names the property lists is registered with a type implementing AggregatorFunction.",
 		NotDecided: "every numeric definition (sum/avg/Welford variance/percentile interpolation/median), permutation invariance, coercion by cast.ToFloat64E, values of per-row expression arguments.",
-		Run: runC03,
+		Run:        runC03,
 	})
 }
 
@@ -75,6 +75,8 @@ func runC03(a *A) {
 	})
 	a.Rule("flow/null-choke-point", 5, func() { a.ruleNullChokePoint() })
 	a.Rule("aggstate/reset", 2, func() { a.ruleAggregatorReset() })
+	a.Rule("shape/aggregate-name-case", 1, func() { a.ruleAggregateNameCase() })
+	a.Rule("golife/captured-loop-variable", 1, func() { a.ruleCapturedLoopVariable(nil) })
 	a.Rule("tables/aggregate-registry", 17, func() { a.ruleAggregateRegistry() })
 }
 
@@ -371,4 +373,69 @@ func (a *A) ruleAggregateRegistry() {
 			a.Ok("aggregate:"+w, reg.Pos(), "registered as %s", strings.TrimPrefix(t, "*"+modPath+"/"))
 		}
 	}
+}
+
+// ruleAggregateNameCase: SQL function names are case-insensitive and the registry lookups fold case
+// (functions.Get lower-cases), but an aggregator.AggregateType carries the name as the query wrote it.
+// The comparison that selects the aggregates receiving NULL inputs (shouldAllowNullValues: first_value,
+// last_value) must therefore be made on a case-folded value (strings.ToLower/ToUpper of it), else
+// FIRST_VALUE(x) skips an explicit NULL that first_value(x) reports. Other name comparisons in the
+// module (count special case, internal markers "expression"/"post_aggregation", the empty name) were
+// read: both branches treat the value alike or the constant is not a function name; they are not judged.
+func (a *A) ruleAggregateNameCase() int {
+	n := 0
+	allow := a.Method("aggregator", "GroupAggregator", "shouldAllowNullValues")
+	isAggName := func(t types.Type) bool {
+		return isNamedType(t, a.Pkg("aggregator").Pkg.Path(), "AggregateType") || isNamedType(t, a.Pkg("functions").Pkg.Path(), "AggregateType")
+	}
+	var folded func(v ssa.Value, d int) bool
+	folded = func(v ssa.Value, d int) bool {
+		if d > 6 {
+			return false
+		}
+		switch x := v.(type) {
+		case *ssa.Convert:
+			return folded(x.X, d+1)
+		case *ssa.ChangeType:
+			return folded(x.X, d+1)
+		case *ssa.Call:
+			if f := x.Call.StaticCallee(); f != nil && f.Pkg != nil && f.Pkg.Pkg.Path() == "strings" && (f.Name() == "ToLower" || f.Name() == "ToUpper") {
+				return true
+			}
+		case *ssa.Phi:
+			for _, e := range x.Edges {
+				if !folded(e, d+1) {
+					return false
+				}
+			}
+			return len(x.Edges) > 0
+		}
+		return false
+	}
+	for _, fn := range []*ssa.Function{allow} {
+		perFn := map[ssa.Value]bool{}
+		allInstrs(fn, func(in ssa.Instruction) {
+			bo, ok := in.(*ssa.BinOp)
+			if !ok || bo.Op != token.EQL && bo.Op != token.NEQ {
+				return
+			}
+			var val ssa.Value
+			if k, ok := bo.Y.(*ssa.Const); ok && k.Value != nil && k.Value.Kind() == constant.String && isAggName(bo.X.Type()) {
+				val = bo.X
+			} else if k, ok := bo.X.(*ssa.Const); ok && k.Value != nil && k.Value.Kind() == constant.String && isAggName(bo.Y.Type()) {
+				val = bo.Y
+			}
+			if val == nil || perFn[val] {
+				return
+			}
+			perFn[val] = true
+			n++
+			construct := fname(fn) + "#name-compare"
+			a.Check(folded(val, 0), construct, bo.Pos(),
+				"the aggregate name is case-folded before it is compared with constants",
+				"the aggregate name "+TermOf(val, nil).String()+" is compared with lower-case constants as the query wrote it: "+
+					"an upper-case spelling of the function takes the other branch")
+		})
+	}
+	return n
 }
